@@ -1124,6 +1124,18 @@ def new_metadata_value(schema_str, old, rng, raw=False):
     return json.dumps(cur).encode() if raw else cur
 
 
+def repartition(vals, rng):
+    """Same flat content, different row boundaries: the last item of one entry moves to the front of the next.
+    (Only the offset column changes.)  None when no entry followed by another has an item."""
+    cands = [i for i in range(len(vals) - 1) if len(vals[i]) >= 1]
+    if not cands:
+        return None
+    i = rng.choice(cands)
+    out = list(vals)
+    out[i], out[i + 1] = vals[i][:-1], vals[i][-1:] + vals[i + 1]
+    return out
+
+
 def perturb(kind, b, m, rng):
     """Apply one perturbation of class `kind` to table collection b (built from model m).  Returns the name of the
     table touched (or True), or None when not applicable."""
@@ -1135,7 +1147,11 @@ def perturb(kind, b, m, rng):
         t = getattr(b, name)
         j = rng.randrange(t.num_rows)
         mds = from_rows_metadata(t)
-        mds[j] = new_metadata_value(m.schemas.get(name, ""), mds[j], rng, raw=True)
+        rp = repartition(mds, rng) if (not m.schemas.get(name) and rng.random() < 0.35) else None
+        if rp is not None:
+            mds = rp
+        else:
+            mds[j] = new_metadata_value(m.schemas.get(name, ""), mds[j], rng, raw=True)
         t.packset_metadata(mds)
         return name
     if kind == "table_schema":
@@ -1168,7 +1184,11 @@ def perturb(kind, b, m, rng):
         t = b.provenances
         if t.num_rows and rng.random() < 0.7:
             recs = [r[1] for r in m.provenances]
-            recs[rng.randrange(len(recs))] += "!"
+            rp = repartition(recs, rng) if rng.random() < 0.35 else None
+            if rp is not None:
+                recs = rp
+            else:
+                recs[rng.randrange(len(recs))] += "!"
             t.packset_record(recs)
         else:
             t.add_row("extra", timestamp="2000-01-01T00:00:00")
@@ -1178,7 +1198,11 @@ def perturb(kind, b, m, rng):
         if not t.num_rows:
             return None
         tss = [r[0] for r in m.provenances]
-        tss[rng.randrange(len(tss))] += "Z"
+        rp = repartition(tss, rng) if rng.random() < 0.35 else None
+        if rp is not None:
+            tss = rp
+        else:
+            tss[rng.randrange(len(tss))] += "Z"
         t.packset_timestamp(tss)
         return "provenances"
     if kind == "table_data":
@@ -1211,7 +1235,10 @@ def perturb(kind, b, m, rng):
             d[col] = a
         else:
             vals = [r_[j] for r_ in rows]
-            if k == "S":
+            rp = repartition(vals, rng) if rng.random() < 0.5 else None
+            if rp is not None:
+                vals = rp
+            elif k == "S":
                 vals[i] = vals[i] + "G"
             elif k == "Rf8":
                 vals[i] = tuple(vals[i]) + (1.5,)
